@@ -122,6 +122,9 @@ type Config struct {
 	PoolDropPct int     `json:"pool_drop,omitempty"`
 	PStall      int     `json:"pstall,omitempty"` // F2: per-mille chance of a long preemption at a scheduling decision
 	MaxSteps    int     `json:"max_steps,omitempty"`
+	// WallSteps: [at, delta] in ns of simulated time; the wall clock (not the
+	// monotonic clock) jumps by delta at that time
+	WallSteps [][2]int64 `json:"wall_steps,omitempty"`
 
 	M3   *M3Cfg   `json:"m3,omitempty"`
 	Prom *PromCfg `json:"prom,omitempty"`
@@ -409,6 +412,11 @@ func (te *taskEnv) exec(op *Op, rec *OpRec) {
 	case "upd":
 		if mv := te.metrics[op.M]; mv != nil && mv.kind == "gauge" {
 			rec.Obj, rec.Ptr = mv, mv.ptr
+			// N > 1: a burst, the update is the last of N (the others carry values
+			// no other operation uses)
+			for i := 1; i < op.N; i++ {
+				mv.obj.(tally.Gauge).Update(float64(i) + 0.0625)
+			}
 			mv.obj.(tally.Gauge).Update(f64from(op.F))
 		}
 	case "rec":
